@@ -284,8 +284,8 @@ def replay(prop, path):
         r = stages.expand(exp['bins'][feat], [smgen.dsl_defn(d)])[0]
         out = coqrun.run_shards(os.path.join(stages.CACHE, 'replay_coq'),
                                 ['Eval vm_compute in ("L", 0, 0, k3_table_of %s %s).' % ('true' if feat else 'false', smgen.coq_defn(d))])
-        model = sorted(set(coqrun.parse_L(out).get((0, 0), [])))
-        real = sorted(set(ties_k1s.skel_table(r, smgen.get(d, 'name'), smgen.get(d, 'context') is not None))) if r.get('ok') else ['REJECTED']
+        model = sorted(set(x.replace(' ', '') for x in coqrun.parse_L(out).get((0, 0), [])))
+        real = sorted(set(x.replace(' ', '') for x in ties_k1s.skel_table(r, smgen.get(d, 'name'), smgen.get(d, 'context') is not None))) if r.get('ok') else ['REJECTED']
         om = [x for x in model if x not in real]
         orr = [x for x in real if x not in model]
         print('only in model       :', om[:10])
